@@ -1,0 +1,18 @@
+//go:build verif
+
+package mvs
+
+import (
+	"context"
+
+	"github.com/pgavlin/dawn/internal/vcs"
+)
+
+// VerifDialFunc adapts a function to the Dialer interface (whose method is unexported) so
+// that the verification harness can serve generated repositories. Only compiled with the
+// "verif" build tag.
+type VerifDialFunc func(ctx context.Context, vcsKind, address string) (vcs.Repository, error)
+
+func (f VerifDialFunc) dialRepository(ctx context.Context, vcsKind, address string) (vcs.Repository, error) {
+	return f(ctx, vcsKind, address)
+}
